@@ -579,21 +579,30 @@ def run(ctx):
         regs10 = arms.arm_regions(prog, ev, sw10[0][0], "minijinja::compiler::instructions::Instruction") if sw10 else {}
         if "ExportLocals" in regs10:
             reg = regs10["ExportLocals"]
-            ins = [c for c in arms.calls_in(ev, reg) if c.name.split("::")[-1] in ("insert", "push", "extend")]
-            loops = [(h, b) for h, b in cfg.natural_loops(ev) if h in reg and b <= reg | {h}]
+            # the handler itself, or the private helper(s) its body was moved into (`self.export_locals(state, captured)`)
+            places = [(ev, reg)]
+            for c in arms.calls_in(ev, reg):
+                g_ = prog.fns.get(c.resolved or c.path)
+                if g_ is not None and g_.kind != "closure" and not g_.is_pub and g_.crate == ev.crate and g_.path.startswith("minijinja::vm::"):
+                    places.append((g_, set(g_.reachable)))
             ok10 = False
             detail = "no loop over the frame's locals with an insert into the exported map found"
-            for h, body in loops:
-                inside = [c for c in ins if c.bb in body]
-                if not inside:
-                    continue
-                nexts = [c for c in arms.calls_in(ev, body) if c.name.endswith("::next")]
-                # every path from `next()` back to the loop header (another iteration) passes the insert
-                back = {t for (t, hh) in cfg.back_edges(ev) if hh == h}
-                ok10 = bool(nexts) and all(
-                    cfg.paths_must_pass(ev, n.target if n.target is not None else n.bb, [c.bb for c in inside], back)
-                    for n in nexts)
-                detail = "a path through the loop over the locals reaches the next iteration without inserting the local"
+            for fn10, reg in places:
+                ins = [c for c in arms.calls_in(fn10, reg) if c.name.split("::")[-1] in ("insert", "push", "extend")]
+                loops = [(h, b) for h, b in cfg.natural_loops(fn10) if h in reg and b <= reg | {h}]
+                for h, body in loops:
+                    inside = [c for c in ins if c.bb in body]
+                    if not inside:
+                        continue
+                    nexts = [c for c in arms.calls_in(fn10, body) if c.name.endswith("::next")]
+                    # every path from `next()` back to the loop header (another iteration) passes the insert
+                    back = {t for (t, hh) in cfg.back_edges(fn10) if hh == h}
+                    ok10 = bool(nexts) and all(
+                        cfg.paths_must_pass(fn10, n.target if n.target is not None else n.bb, [c.bb for c in inside], back)
+                        for n in nexts)
+                    detail = "a path through the loop over the locals reaches the next iteration without inserting the local"
+                if ok10:
+                    break
             ctx.ob("C06.I10.import-exposes-every-top-level-name", tag + "eval_impl|ExportLocals", ok10, detail +
                    ": the module object built for `{% import x as m %}` lacks names the imported template defines, while "
                    "`{% from x import name %}` (a plain lookup in the import frame) still sees them", ev.loc)
